@@ -29,6 +29,7 @@ type pingSpec struct {
 	// arrival plan
 	matchAt time.Duration // <0: no matching reply
 	ipopts  bool          // IPv4 only: the peer's datagrams carry IP options
+	tclass  byte          // DSCP / traffic class of the peer's datagrams
 	datalen int           // 0: the peer echoes the data; 1: no data; 2: one byte; 3: padded to 1215 bytes
 	extras  []pingExtra
 	// results
@@ -64,7 +65,8 @@ func echoFrame(nic mon.NIC, p *pingSpec, typ4, typ6 byte, id uint16, truncate bo
 		if truncate {
 			msg = msg[:6]
 		}
-		return refdec.Ether(host, p.dmac, 0x86dd, 0, refdec.IP6(refdec.IP6Hdr{Next: 58, Hop: 64, Src: p.dst, Dst: nic.HostLLA, PayloadLen: -1}, msg))
+		// traffic class and flow label are the peer's business (network control traffic is often sent as CS6/CS7)
+		return refdec.Ether(host, p.dmac, 0x86dd, 0, refdec.IP6(refdec.IP6Hdr{Class: p.tclass, Flow: uint32(p.tclass) * 0x1357 & 0xfffff, Next: 58, Hop: 64, Src: p.dst, Dst: nic.HostLLA, PayloadLen: -1}, msg))
 	}
 	var rest [4]byte
 	copy(rest[:], body[:4])
@@ -72,7 +74,7 @@ func echoFrame(nic mon.NIC, p *pingSpec, typ4, typ6 byte, id uint16, truncate bo
 	if truncate {
 		msg = msg[:6]
 	}
-	h := refdec.IP4Hdr{TTL: 64, Proto: 1, Src: p.dst, Dst: nic.HostIP}
+	h := refdec.IP4Hdr{TOS: p.tclass, ID: uint16(p.tclass) * 257, TTL: 64, Proto: 1, Src: p.dst, Dst: nic.HostIP}
 	if p.ipopts {
 		// the peer's datagrams carry IPv4 options (record route / timestamp pings, or just padding): the ICMP message starts
 		// at 4 x IHL. The option bytes are chosen to look like the echo reply this ping waits for (type 0, code 0, checksum,
@@ -118,6 +120,7 @@ func c19Scenario(c *wk.Ctx, idx int64, r *rand.Rand) (nontrivial string, viol bo
 		p.sendErr = r.Intn(10) == 0
 		p.ipopts = !p.v6 && r.Intn(3) == 0
 		p.datalen = []int{0, 0, 0, 1, 2, 3}[r.Intn(6)]
+		p.tclass = []byte{0, 0, 0xc0, 0xe0, 0x28, byte(r.Intn(256))}[r.Intn(6)]
 		p.matchAt = -1
 		switch r.Intn(5) {
 		case 4:
